@@ -187,13 +187,15 @@ Proof.
 Qed.
 
 (* ------------------------------------------------------------------------------------- *)
-(* SAM text never starts with the gzip or BAM magic, and with the CRAM magic only in the F14 class *)
+(* SAM text never starts with the gzip or BAM magic; when it starts with the CRAM magic (the F14
+   class) the next byte continues SAM text *)
 
 Lemma name_line_not_magic : forall nm rest more,
   name_ok nm = true ->
   (forall r, (nm ++ 9 :: rest) ++ more <> 31 :: 139 :: r) /\
   (forall r, (nm ++ 9 :: rest) ++ more <> BAM_MAGIC ++ r) /\
-  (starts_with CRAM_MAGIC nm = false -> forall r, (nm ++ 9 :: rest) ++ more <> CRAM_MAGIC ++ r).
+  (starts_with CRAM_MAGIC nm = false -> forall r, (nm ++ 9 :: rest) ++ more <> CRAM_MAGIC ++ r) /\
+  (forall r, (nm ++ 9 :: rest) ++ more = CRAM_MAGIC ++ r -> exists b r', r = b :: r' /\ sam_cont b = true).
 Proof.
   intros nm rest more Hok. unfold name_ok in Hok.
   repeat (apply andb_true_iff in Hok; destruct Hok as [Hok ?]).
@@ -203,29 +205,47 @@ Proof.
   assert (B : forall x, name_byte_ok x = true -> 33 <= x).
   { intros x Hx. unfold name_byte_ok in Hx. apply andb_true_iff in Hx. destruct Hx as [Hx _].
     apply andb_true_iff in Hx. destruct Hx as [Hx _]. apply N.leb_le in Hx. exact Hx. }
+  assert (G : forall x, name_byte_ok x = true -> sam_cont x = true).
+  { intros x Hx. unfold name_byte_ok in Hx. apply andb_true_iff in Hx. destruct Hx as [Hx _].
+    unfold sam_cont. rewrite Hx. reflexivity. }
   destruct nm as [|a [|b [|c [|d nm']]]]; [contradiction| | | |];
-    cbn [forallb] in Hb; repeat (apply andb_true_iff in Hb; destruct Hb as [? Hb]);
-    repeat match goal with H : name_byte_ok _ = true |- _ => apply B in H end;
-    (split; [|split]); unfold BAM_MAGIC, CRAM_MAGIC; cbn [app]; intros;
-    try (intro X; injection X; intros; subst; try discriminate; lia).
+    cbn [forallb] in Hb; repeat (apply andb_true_iff in Hb; destruct Hb as [? Hb]).
+  1-3: repeat match goal with H : name_byte_ok _ = true |- _ => apply B in H end;
+    (split; [|split; [|split]]); unfold BAM_MAGIC, CRAM_MAGIC; cbn [app]; intros;
+    try (intro X; injection X; intros; subst; try discriminate; lia);
+    match goal with X : _ :: _ = _ :: _ |- _ => injection X; intros; exfalso; lia end.
+  (* four or more name bytes *)
+  split; [|split; [|split]]; unfold BAM_MAGIC, CRAM_MAGIC; cbn [app]; intros.
+  - intro X. injection X; intros; subst.
+    match goal with H : name_byte_ok 31 = true |- _ => vm_compute in H; discriminate end.
+  - intro X. injection X; intros; subst.
+    match goal with H : name_byte_ok 1 = true |- _ => vm_compute in H; discriminate end.
+  - intro X. injection X; intros; subst.
+    match goal with H : starts_with _ _ = false |- _ => cbn in H; discriminate end.
+  - match goal with X : _ :: _ = _ :: _ |- _ => injection X; intros; subst end.
+    destruct nm' as [|e nm'].
+    + cbn [app]. eexists. eexists. split; reflexivity.
+    + cbn [app]. cbn [forallb] in Hb. apply andb_true_iff in Hb. destruct Hb as [He _].
+      eexists. eexists. split; [reflexivity|]. apply G. exact He.
 Qed.
 
 Lemma sam_text_not_magic : forall hdr recs,
   forallb sam_line_ok recs = true ->
   (forall r, sam_text hdr recs <> 31 :: 139 :: r) /\
   (forall r, sam_text hdr recs <> BAM_MAGIC ++ r) /\
-  (sam_first_name_cram hdr recs = false -> forall r, sam_text hdr recs <> CRAM_MAGIC ++ r).
+  (sam_first_name_cram hdr recs = false -> forall r, sam_text hdr recs <> CRAM_MAGIC ++ r) /\
+  (forall r, sam_text hdr recs = CRAM_MAGIC ++ r -> exists b r', r = b :: r' /\ sam_cont b = true).
 Proof.
   intros hdr recs Hok. unfold sam_text. destruct hdr as [|h hs].
   - cbn [map concat app]. destruct recs as [|l recs].
     + cbn. repeat split; intros; discriminate.
     + cbn [map concat]. cbn [forallb] in Hok. apply andb_true_iff in Hok. destruct Hok as [Hl _].
       unfold sam_line_bytes, sam_line_ok, sam_first_name_cram in *. destruct (sl_name l) as [nm|].
-      * destruct (name_line_not_magic nm (sl_rest l ++ [10]) (concat (map sam_line_bytes recs)) Hl) as [A [B C]].
-        unfold sam_line_bytes in *. split; [exact A|split; [exact B|exact C]].
-      * cbn [app]. unfold BAM_MAGIC, CRAM_MAGIC. repeat split; intros; cbn [app]; intro X; discriminate.
+      * destruct (name_line_not_magic nm (sl_rest l ++ [10]) (concat (map sam_line_bytes recs)) Hl) as [A [B [C D]]].
+        unfold sam_line_bytes in *. split; [exact A|split; [exact B|split; [exact C|exact D]]].
+      * cbn [app]. unfold BAM_MAGIC, CRAM_MAGIC. repeat split; intros; cbn [app] in *; try (intro X); discriminate.
   - cbn [map concat hdr_line_bytes app]. unfold BAM_MAGIC, CRAM_MAGIC.
-    repeat split; intros; cbn [app]; intro X; discriminate.
+    repeat split; intros; cbn [app] in *; try (intro X); discriminate.
 Qed.
 
 Lemma vcf_text_not_magic : forall rest,
@@ -242,10 +262,9 @@ Proof.
 Qed.
 
 Lemma window_app_ge : forall p r k, (length p <= Nat.min k BUF_CAP)%nat ->
-  exists r', window (p ++ r) k = p ++ r'.
+  window (p ++ r) k = p ++ firstn (Nat.min k BUF_CAP - length p) r.
 Proof.
-  intros p r k H. unfold window. exists (firstn (Nat.min k BUF_CAP - length p) r).
-  rewrite firstn_app. f_equal. apply firstn_all2. exact H.
+  intros p r k H. unfold window. rewrite firstn_app. f_equal. apply firstn_all2. exact H.
 Qed.
 
 Lemma window_full : forall s k, (length s <= Nat.min k BUF_CAP)%nat -> window s k = s.
@@ -262,8 +281,8 @@ Section Deflate.
   Hypothesis bgzf_magic : forall p, exists r, bgzf p = 31 :: 139 :: r.
   (* from any leading window of a BGZF stream the decoder delivers a prefix of the payload *)
   Hypothesis gunzip_prefix : forall p m, exists n, avail (gunzip (firstn m (bgzf p))) = firstn n p.
-  (* from the whole stream it delivers the whole payload, then end of stream *)
-  Hypothesis gunzip_whole : forall p, gunzip (bgzf p) = mk_inflated p UnexpectedEof.
+  (* from the whole stream it delivers the whole payload, then a clean end of stream *)
+  Hypothesis gunzip_whole : forall p, gunzip (bgzf p) = mk_inflated p None.
 
   (* streams of the generic alignment writer; the boolean marks the F14 class *)
   Inductive written_a : afmt -> comp -> bool -> list N -> Prop :=
@@ -273,7 +292,8 @@ Section Deflate.
       written_a Sam CBgzf false (bgzf (sam_text hdr recs))
   | WBamRaw : forall rest, written_a Bam CNone false (bam_payload rest)
   | WBam : forall rest, written_a Bam CBgzf false (bgzf (bam_payload rest))
-  | WCram : forall major minor rest, written_a Cram CNone false (cram_stream major minor rest).
+  | WCram : forall major minor rest, cram_major_ok major = true ->
+      written_a Cram CNone false (cram_stream major minor rest).
 
   Inductive written_v : vfmt -> comp -> list N -> Prop :=
   | WVcf : forall rest, written_v Vcf CNone (vcf_text rest)
@@ -282,31 +302,27 @@ Section Deflate.
   | WBcf : forall rest, written_v Bcf CBgzf (bgzf (bcf_payload rest)).
 
   (* what the first window must contain (k = number of bytes the first read delivers) *)
-  Definition window_ok_a (f : afmt) (c : comp) (s : list N) (k : nat) : Prop :=
+  Definition window_ok_a (f : afmt) (c : comp) (amb : bool) (s : list N) (k : nat) : Prop :=
     match c, f with
-    | CNone, Sam => True
+    | CNone, Sam => amb = true -> (5 <= Nat.min k BUF_CAP)%nat
     | CNone, _ => (4 <= Nat.min k BUF_CAP)%nat
-    | CBgzf, _ => (2 <= Nat.min k BUF_CAP)%nat /\ (4 <= length (avail (gunzip (window s k))))%nat
+    | CBgzf, _ => (2 <= Nat.min k BUF_CAP)%nat /\
+                  ((4 <= length (avail (gunzip (window s k))))%nat \/ (length s <= Nat.min k BUF_CAP)%nat)
     end.
 
   Definition window_ok_v (f : vfmt) (c : comp) (s : list N) (k : nat) : Prop :=
     match c, f with
     | CNone, Vcf => True
     | CNone, Bcf => (3 <= Nat.min k BUF_CAP)%nat
-    | CBgzf, _ => (2 <= Nat.min k BUF_CAP)%nat /\ (3 <= length (avail (gunzip (window s k))))%nat
+    | CBgzf, _ => (2 <= Nat.min k BUF_CAP)%nat /\
+                  ((3 <= length (avail (gunzip (window s k))))%nat \/ (length s <= Nat.min k BUF_CAP)%nat)
     end.
 
   Lemma gz_window : forall p k, (2 <= Nat.min k BUF_CAP)%nat -> exists r, window (bgzf p) k = 31 :: 139 :: r.
   Proof.
     intros p k H. destruct (bgzf_magic p) as [r Hr]. rewrite Hr.
-    destruct (window_app_ge [31; 139] r k H) as [r' Hr']. exists r'. exact Hr'.
-  Qed.
-
-  Lemma gz_avail : forall p k n, (n <= length (avail (gunzip (window (bgzf p) k))))%nat ->
-    firstn n (avail (gunzip (window (bgzf p) k))) = firstn n p.
-  Proof.
-    intros p k n H. unfold window in *. destruct (gunzip_prefix p (Nat.min k BUF_CAP)) as [m Hm].
-    rewrite Hm in *. rewrite firstn_length in H. rewrite firstn_firstn. f_equal. lia.
+    change (31 :: 139 :: r) with ([31; 139] ++ r). rewrite (window_app_ge [31; 139] r k H).
+    eexists. reflexivity.
   Qed.
 
   Lemma firstn_not_starts : forall (p s : list N), (forall r, s <> p ++ r) -> firstn (length p) s <> p.
@@ -314,31 +330,49 @@ Section Deflate.
     intros p s H X. apply (H (skipn (length p) s)). rewrite <- X at 1. symmetry. apply firstn_skipn.
   Qed.
 
-  Theorem detect_written_a_partial : forall f c s k,
-    written_a f c false s -> window_ok_a f c s k ->
+  (* the bytes read_upto gets out of a window of bgzf p: either the first n bytes of p, or, when
+     the window is the whole stream, all of p *)
+  Lemma gz_read_upto : forall p k n,
+    ((n <= length (avail (gunzip (window (bgzf p) k))))%nat \/ (length (bgzf p) <= Nat.min k BUF_CAP)%nat) ->
+    read_upto_infl n (gunzip (window (bgzf p) k)) = Ok (firstn n p).
+  Proof.
+    intros p k n [H|H].
+    - unfold read_upto_infl. replace (n <=? _)%nat with true by (symmetry; apply Nat.leb_le; exact H).
+      unfold window in *. destruct (gunzip_prefix p (Nat.min k BUF_CAP)) as [m Hm].
+      rewrite Hm in *. rewrite firstn_length in H. rewrite firstn_firstn. do 2 f_equal. lia.
+    - rewrite window_full by exact H. rewrite gunzip_whole. unfold read_upto_infl. cbn [avail stop].
+      destruct (n <=? length p)%nat eqn:E; [reflexivity|].
+      apply Nat.leb_gt in E. rewrite firstn_all2 by lia. reflexivity.
+  Qed.
+
+  Theorem detect_written_a_partial : forall f c amb s k,
+    written_a f c amb s -> window_ok_a f c amb s k ->
     detect_a (window s k) (gunzip (window s k)) = Ok (f, c).
   Proof.
-    intros f c s k Hw Hk. remember false as amb eqn:Ha.
-    destruct Hw as [hdr recs Hok|hdr recs Hok|rest|rest|major minor rest].
-    - destruct (sam_text_not_magic hdr recs Hok) as [A [B C]].
+    intros f c amb s k Hw Hk.
+    destruct Hw as [hdr recs Hok|hdr recs Hok|rest|rest|major minor rest Hmaj].
+    - destruct (sam_text_not_magic hdr recs Hok) as [A [B [C D]]].
       apply detect_a_sam_none.
       + exact (window_not_starts _ k [31; 139] A).
       + exact (window_not_starts _ k BAM_MAGIC B).
-      + exact (window_not_starts _ k CRAM_MAGIC (C Ha)).
+      + intros r Hr. destruct (sam_first_name_cram hdr recs) eqn:Ea.
+        * cbn [window_ok_a] in Hk. specialize (Hk eq_refl).
+          destruct (firstn_starts _ _ _ _ Hr) as [r0 Hr0]. destruct (D r0 Hr0) as [b [r' [Hb Hc]]]. subst r0.
+          rewrite Hr0 in Hr. rewrite (window_app_ge CRAM_MAGIC (b :: r') k) in Hr by (cbn [length CRAM_MAGIC]; lia).
+          apply app_inv_head in Hr. cbn [length CRAM_MAGIC] in Hr.
+          destruct (Nat.min k BUF_CAP - 4)%nat as [|m] eqn:Em; [lia|].
+          cbn [firstn] in Hr. exists b, (firstn m r'). split; [symmetry; exact Hr|exact Hc].
+        * exfalso. exact (window_not_starts _ k CRAM_MAGIC (C eq_refl) r Hr).
     - destruct Hk as [H2 H4]. destruct (gz_window (sam_text hdr recs) k H2) as [r Hr].
-      rewrite Hr at 1. rewrite detect_a_gz. unfold read_upto_infl.
-      replace (4 <=? _)%nat with true by (symmetry; apply Nat.leb_le; exact H4).
-      rewrite (gz_avail _ _ 4 H4).
+      rewrite Hr at 1. rewrite detect_a_gz. rewrite (gz_read_upto _ _ 4 H4).
       destruct (sam_text_not_magic hdr recs Hok) as [_ [B _]].
       rewrite eqb_bytes_neq; [reflexivity|]. exact (firstn_not_starts BAM_MAGIC _ B).
-    - cbn in Hk. destruct (window_app_ge BAM_MAGIC rest k Hk) as [r Hr].
-      unfold bam_payload. rewrite Hr. apply detect_a_bam_raw.
+    - cbn in Hk. unfold bam_payload. rewrite (window_app_ge BAM_MAGIC rest k Hk). apply detect_a_bam_raw.
     - destruct Hk as [H2 H4]. destruct (gz_window (bam_payload rest) k H2) as [r Hr].
-      rewrite Hr at 1. rewrite detect_a_gz. unfold read_upto_infl.
-      replace (4 <=? _)%nat with true by (symmetry; apply Nat.leb_le; exact H4).
-      rewrite (gz_avail _ _ 4 H4). reflexivity.
-    - cbn in Hk. destruct (window_app_ge CRAM_MAGIC (major :: minor :: rest) k Hk) as [r Hr].
-      unfold cram_stream. rewrite Hr. apply detect_a_cram.
+      rewrite Hr at 1. rewrite detect_a_gz. rewrite (gz_read_upto _ _ 4 H4). reflexivity.
+    - cbn in Hk. unfold cram_stream. rewrite (window_app_ge CRAM_MAGIC (major :: minor :: rest) k Hk).
+      apply detect_a_cram. destruct (Nat.min k BUF_CAP - length CRAM_MAGIC)%nat; cbn [firstn]; [exact I|].
+      unfold cram_major_ok in Hmaj. apply negb_true_iff in Hmaj. exact Hmaj.
   Qed.
 
   Theorem detect_written_v_partial : forall f c s k,
@@ -351,37 +385,41 @@ Section Deflate.
       + exact (window_not_starts _ k [31; 139] A).
       + exact (window_not_starts _ k BCF_MAGIC B).
     - destruct Hk as [H2 H3]. destruct (gz_window (vcf_text rest) k H2) as [r Hr].
-      rewrite Hr at 1. rewrite detect_v_gz. unfold read_upto_infl.
-      replace (3 <=? _)%nat with true by (symmetry; apply Nat.leb_le; exact H3).
-      rewrite (gz_avail _ _ 3 H3). reflexivity.
-    - cbn in Hk. destruct (window_app_ge BCF_MAGIC (2 :: 2 :: rest) k Hk) as [r Hr].
-      unfold bcf_payload. rewrite Hr. apply detect_v_bcf_raw.
+      rewrite Hr at 1. rewrite detect_v_gz. rewrite (gz_read_upto _ _ 3 H3). reflexivity.
+    - cbn in Hk. unfold bcf_payload. rewrite (window_app_ge BCF_MAGIC (2 :: 2 :: rest) k Hk). apply detect_v_bcf_raw.
     - destruct Hk as [H2 H3]. destruct (gz_window (bcf_payload rest) k H2) as [r Hr].
-      rewrite Hr at 1. rewrite detect_v_gz. unfold read_upto_infl.
-      replace (3 <=? _)%nat with true by (symmetry; apply Nat.leb_le; exact H3).
-      rewrite (gz_avail _ _ 3 H3). reflexivity.
+      rewrite Hr at 1. rewrite detect_v_gz. rewrite (gz_read_upto _ _ 3 H3). reflexivity.
   Qed.
 
-  (* when the first read delivers the whole stream (it fits the 8 KiB buffer) the only side
-     condition left is on the payload length (F13) *)
+  (* when the first read delivers the whole stream (it fits the 8 KiB buffer) no side condition is
+     left: every stream of the generic writers, including the empty BGZF-compressed SAM (F13) and
+     the header-less SAM whose first read is named CRAM... (F14), is detected as written *)
   Lemma length_bgzf_ge2 : forall p, (2 <= length (bgzf p))%nat.
   Proof. intro p. destruct (bgzf_magic p) as [r Hr]. rewrite Hr. cbn [length]. lia. Qed.
 
-  Theorem detect_written_whole_a : forall f c s k,
-    written_a f c false s -> (length s <= Nat.min k BUF_CAP)%nat ->
-    (forall hdr recs, s = bgzf (sam_text hdr recs) -> (4 <= length (sam_text hdr recs))%nat) ->
+  Lemma sam_text_cram_len : forall hdr recs, forallb sam_line_ok recs = true ->
+    sam_first_name_cram hdr recs = true -> (5 <= length (sam_text hdr recs))%nat.
+  Proof.
+    intros hdr recs Hok Ha. unfold sam_first_name_cram in Ha.
+    destruct hdr as [|h hs]; [|discriminate]. destruct recs as [|l recs]; [discriminate|].
+    destruct (sl_name l) as [nm|] eqn:En; [|discriminate].
+    unfold sam_text. cbn [map concat app]. unfold sam_line_bytes. rewrite En.
+    assert (L : (4 <= length nm)%nat).
+    { unfold starts_with in Ha. apply eqb_bytes_eq in Ha.
+      destruct nm as [|a [|b [|c [|d nm']]]]; try (cbn in Ha; discriminate Ha). cbn [length]. lia. }
+    repeat rewrite app_length. cbn [length]. lia.
+  Qed.
+
+  Theorem detect_written_whole_a : forall f c amb s k,
+    written_a f c amb s -> (length s <= Nat.min k BUF_CAP)%nat ->
     detect_a (window s k) (gunzip (window s k)) = Ok (f, c).
   Proof.
-    intros f c s k Hw Hlen Htxt. apply detect_written_a_partial; [exact Hw|].
-    remember false as amb eqn:Ha. clear Ha.
-    destruct Hw as [hdr recs Hok|hdr recs Hok|rest|rest|major minor rest]; cbn [window_ok_a].
-    - exact I.
-    - pose proof (length_bgzf_ge2 (sam_text hdr recs)). split; [lia|].
-      rewrite window_full by exact Hlen. rewrite gunzip_whole. cbn [avail]. apply (Htxt hdr recs). reflexivity.
+    intros f c amb s k Hw Hlen. apply (detect_written_a_partial f c amb); [exact Hw|].
+    destruct Hw as [hdr recs Hok|hdr recs Hok|rest|rest|major minor rest Hmaj]; cbn [window_ok_a].
+    - intro Ha. pose proof (sam_text_cram_len hdr recs Hok Ha). lia.
+    - pose proof (length_bgzf_ge2 (sam_text hdr recs)). split; [lia|right; exact Hlen].
     - unfold bam_payload in Hlen. rewrite app_length in Hlen. cbn [length BAM_MAGIC] in Hlen. lia.
-    - pose proof (length_bgzf_ge2 (bam_payload rest)). split; [lia|].
-      rewrite window_full by exact Hlen. rewrite gunzip_whole. cbn [avail].
-      unfold bam_payload. rewrite app_length. cbn [length BAM_MAGIC]. lia.
+    - pose proof (length_bgzf_ge2 (bam_payload rest)). split; [lia|right; exact Hlen].
     - unfold cram_stream in Hlen. rewrite app_length in Hlen. cbn [length CRAM_MAGIC] in Hlen. lia.
   Qed.
 
@@ -392,28 +430,12 @@ Section Deflate.
     intros f c s k Hw Hlen. apply detect_written_v_partial; [exact Hw|].
     destruct Hw as [rest|rest|rest|rest]; cbn [window_ok_v].
     - exact I.
-    - pose proof (length_bgzf_ge2 (vcf_text rest)). split; [lia|].
-      rewrite window_full by exact Hlen. rewrite gunzip_whole. cbn [avail].
-      unfold vcf_text. rewrite app_length. cbn [length VCF_PREFIX]. lia.
+    - pose proof (length_bgzf_ge2 (vcf_text rest)). split; [lia|right; exact Hlen].
     - unfold bcf_payload in Hlen. rewrite app_length in Hlen. cbn [length BCF_MAGIC] in Hlen. lia.
-    - pose proof (length_bgzf_ge2 (bcf_payload rest)). split; [lia|].
-      rewrite window_full by exact Hlen. rewrite gunzip_whole. cbn [avail].
-      unfold bcf_payload. rewrite app_length. cbn [length BCF_MAGIC]. lia.
+    - pose proof (length_bgzf_ge2 (bcf_payload rest)). split; [lia|right; exact Hlen].
   Qed.
 
-  (* ---- what fails ---- *)
-
-  (* F13: the BGZF-compressed SAM of an empty header and no records, delivered whole *)
-  Lemma f13_refuted :
-    (length (bgzf []) <= BUF_CAP)%nat ->
-    exists s k, written_a Sam CBgzf false s /\ (length s <= Nat.min k BUF_CAP)%nat /\
-                detect_a (window s k) (gunzip (window s k)) = Err UnexpectedEof.
-  Proof.
-    intro Hsmall. exists (bgzf (sam_text [] [])), BUF_CAP. split; [apply WSamGz; reflexivity|].
-    change (sam_text [] []) with (@nil N). rewrite Nat.min_id. split; [exact Hsmall|].
-    rewrite window_full by (rewrite Nat.min_id; exact Hsmall). rewrite gunzip_whole.
-    destruct (bgzf_magic []) as [r Hr]. rewrite Hr. rewrite detect_a_gz_short; [reflexivity|cbn; lia].
-  Qed.
+  (* ---- what still fails: the first read is shorter than the detector needs ---- *)
 
   (* a first read of one byte: BGZF-compressed anything is taken for uncompressed SAM / VCF *)
   Lemma short_window_gz_refuted : forall p,
@@ -425,18 +447,13 @@ Section Deflate.
   Qed.
 End Deflate.
 
-(* F14: header-less SAM whose first read is named CRAM...: detected as CRAM whatever the window *)
-Lemma f14_refuted :
-  exists hdr recs, forallb sam_line_ok recs = true /\ sam_first_name_cram hdr recs = true /\
-    forall i, detect_a (window (sam_text hdr recs) 8192) i = Ok (Cram, CNone).
-Proof.
-  exists [], [mk_sam_line (Some [67; 82; 65; 77; 49]) [52; 9; 42]].
-  split; [reflexivity|]. split; [reflexivity|]. intro i. vm_compute. reflexivity.
-Qed.
-
-(* a first read shorter than four bytes: raw BAM and CRAM are taken for SAM, raw BCF for VCF *)
+(* a first read shorter than the magic: raw BAM and CRAM are taken for SAM, raw BCF for VCF; and a
+   first read of exactly four bytes of a header-less SAM whose first read is named CRAM... is
+   taken for CRAM (what is left of F14) *)
 Lemma short_window_raw_refuted :
   (forall rest i, detect_a (window (bam_payload rest) 3) i = Ok (Sam, CNone)) /\
   (forall major minor rest i, detect_a (window (cram_stream major minor rest) 3) i = Ok (Sam, CNone)) /\
-  (forall rest i, detect_v (window (bcf_payload rest) 2) i = Ok (Vcf, CNone)).
+  (forall rest i, detect_v (window (bcf_payload rest) 2) i = Ok (Vcf, CNone)) /\
+  (forall i, detect_a (window (sam_text [] [mk_sam_line (Some [67; 82; 65; 77; 49]) [52; 9; 42]]) 4) i
+             = Ok (Cram, CNone)).
 Proof. repeat split; intros; reflexivity. Qed.
